@@ -135,11 +135,10 @@ EXPECTED = {
 
 
 def generate():
+    changed = []
     try:
         info = extract()
-        bad = [k for k, v in EXPECTED.items() if info["shapes"].get(k) != v]
-        if bad:
-            raise ExtractError("hand-modelled algorithm(s) changed text: %s (model: Model/StaticEval.v)" % ", ".join(bad))
+        changed = [k for k, v in EXPECTED.items() if info["shapes"].get(k) != v]
     except ExtractError as ex:
         gen_write("GenExpand", "(* EXTRACTION FAILED: %s *)\nDefinition gen_expand_extraction_failed := tt.\n" % str(ex).replace("*)", "* )"))
         return {"error": str(ex)}
@@ -152,6 +151,10 @@ def generate():
     v += "Definition expand_unop (u : unop) : unexp := (match u with " + " | ".join(
         "U_%s => %s" % (n, {"call": "UCall %s (* %s *)" % (codes(p), p), "erase": "UErase", "eqself": "UEqSelf"}[k]) for n, k, p in info["unary"]) + " end)%N.\n"
     v += "(* static_eval.rs, the `in` desugaring and the Normalizer have exactly the text Model/StaticEval.v was written against *)\n"
-    v += "Definition static_eval_shapes_ok : bool := true.\n"
+    if changed:
+        v += "(* CHANGED TEXT: %s -- the models in Model/StaticEval.v may be stale *)\n" % ", ".join(changed)
+    v += "Definition static_eval_shapes_ok : bool := %s.\n" % ("false" if changed else "true")
     gen_write("GenExpand", v)
+    if changed:
+        info["error"] = "hand-modelled algorithm(s) changed text: %s (model: Model/StaticEval.v)" % ", ".join(changed)
     return info
